@@ -315,8 +315,9 @@ func targets() []target {
 		{"mx.One", gen(mk("mx.One"))},
 		{"mx.ChainL", gen(mk("mx.ChainL"))},
 		{"mx.Anys", gen(mk("mx.Anys"))},
+		{"mx.Late", gen(mk("mx.Late"))},   // a ten-element message list whose elements hold a chain of singular messages
 		{"mx.Enums", gen(mk("mx.Enums"))}, // aliases, out-of-order numbers, same-named enums with different number sets
-		{"B", gen(&testpb.B{})}, // one string field: long strings are reached through periodic streams, see below
+		{"B", gen(&testpb.B{})},           // one string field: long strings are reached through periodic streams, see below
 	}
 }
 
